@@ -24,6 +24,8 @@ def key(rng, n):
             parts[0] = rng.choice(WEAK_DES)
         return b"".join(parts)[:n] + rng.randbytes(max(0, n - 32))
     if k == 4:
+        if rng.random() < 0.5:      # a real DES key: every byte with odd parity
+            return bytes(b if bin(b).count("1") % 2 else b ^ 1 for b in rng.randbytes(n))
         return bytes([rng.randrange(256)]) * n
     comp = [rng.randbytes(8) for _ in range(3)]
     if k == 5:
